@@ -111,7 +111,9 @@ def rand_slice(rng, nflow):
 
 def rand_simple(rng):
     k = rng.choice(["call", "call", "call", "var", "var", "filter", "filter", "filtersel",
-                    "statecall"])
+                    "statecall", "filtersub"])
+    if k == "filtersub":
+        return ["filtersub", rng.choice(["inc", "dbl", "neg", "sq", "half"]), rng.choice([0, 2, 5])]
     if k == "statecall":
         return ["statecall"]
     if k == "filtersel":
@@ -173,6 +175,13 @@ def cases(tier, seed):
         # the accumulator alone (a bare branch of a Split), every accumulator kind
         for acc in ACCS:
             yield {"k": "chain", "pre": [], "acc": acc, "post": [], "flow": list(range(1, n + 1))}
+    # a user callable that raises StopIteration for one value: every driver fails, none presents
+    # the result for the values before it as the result of the flow
+    for n in range(1, 6):
+        for at in range(0, n):
+            for acc in (["store", 1], ["sum"], ["fccount", "c"]):
+                for where in ("callable", "getter"):
+                    yield {"k": "userstop", "n": n, "at": at, "acc": acc, "where": where}
     for i in range(NCHAIN[tier]):
         rng = gen.rng_for(seed, "C05chain", i)
         flow = gen.rand_flow(rng, 8)
@@ -395,6 +404,61 @@ def blame(r, driver, obs_dummy):
 class _NullObs(object):
     def count(self, *a, **k):
         pass
+
+
+class NextConstant(object):
+    """Multiplies by the next constant of an iterator (next() raises StopIteration when the
+    constants run out)."""
+
+    def __init__(self, n):
+        self.it = iter(range(1, n + 1))
+
+    def __call__(self, v):
+        if gen.has_ctx(v):
+            return (gen._num(v[0]) * next(self.it), v[1])
+        return gen._num(v) * next(self.it)
+
+
+def run_userstop(r, obs):
+    import lena.core
+    import lena.variables
+    obs.nontrivial = True
+    n, at = r["n"], r["at"]
+    xs = list(range(1, n + 1))
+
+    def first():
+        if r["where"] == "callable":
+            return NextConstant(at)
+        return lena.variables.Variable("k", NextConstant(at))
+
+    def chain():
+        return [first(), gen.func("inc")] + build_acc(r["acc"])
+    drivers_ = {
+        "sequence-run": lambda: lena.core.Sequence(*chain()).run(iter(xs)),
+        "run-adapter": lambda: lena.core.Run(first()).run(iter(xs)),
+        "source": lambda: lena.core.Source(list(xs), *chain())(),
+        "split-run": lambda: lena.core.Split([tuple(chain())], bufsize=2).run(iter(xs)),
+        "split-run-two-branches": lambda: lena.core.Split(
+            [(gen.Tag("B"),), tuple(chain())], bufsize=1000).run(iter(xs)),
+    }
+
+    def filled(cls):
+        def go():
+            s = cls(*chain())
+            for v in xs:
+                s.fill(v)
+            return s.compute()
+        return go
+    drivers_["fill-compute-seq"] = filled(lena.core.FillComputeSeq)
+    for name, thunk in sorted(drivers_.items()):
+        try:
+            got = ["ok", gen.freeze(list(thunk()))]
+        except BaseException as e:  # pylint: disable=broad-except
+            got = ["exc", type(e).__name__]
+        obs.count("driver_outcomes_compared")
+        obs.check(got[0] == "exc", "user-exception-ends-the-flow-silently:" + name,
+                  "%s: the user's %s raises StopIteration for value no. %d of %r; the driver "
+                  "returned %r as if the flow had ended" % (name, r["where"], at, xs, got))
 
 
 def run_chain(r, obs):
@@ -1053,6 +1117,8 @@ def run_case(r, obs):
     k = r["k"]
     if k == "chain":
         run_chain(r, obs)
+    elif k == "userstop":
+        run_userstop(r, obs)
     elif k == "adapter":
         run_adapter(r, obs)
     elif k == "run_none_function":
@@ -1076,3 +1142,6 @@ RULE += (' Pre-elements include Filter(Selector(raising predicate, raise_on_erro
 RULE += (' Accumulators also include user accumulators built on list and on dict (iterable '
          'objects), every accumulator is also given bare as a Split branch; flows also carry '
          'None / False / "" / 0 / 0.0 as data.')
+RULE += (' Added: Filter with a user subclass of Selector that overrides __call__; a user callable / '
+         'Variable getter that raises StopIteration for one value, under every driver (each must '
+         'fail, none may end the flow silently).')
